@@ -5,17 +5,24 @@ splitting; E lines classified by the independent geometric rule of C11: whole in
 oriented suffix meeting oriented prefix = dovetail, otherwise internal) and compared with the library:
   * connected_components() as a set of frozensets of names = union-find over the dovetail records only; every
     segment in exactly one component; segment_connected_component(s), by name and by instance, = the class of s
-    (graphs of more than 6 segments: every segment is asked once, by name or by instance alternately);
+    (graphs of more than 6 segments: every segment is asked once, by name or by instance alternately); every member
+    of an answer IS the segment of that name in the Gfa (Gfa.segment(name) is member), not a left-over object
+    that merely carries the name (`component-member-not-a-segment-of-the-gfa`);
   * n_dovetails / n_containments / n_internals = number of such records; n_dead_ends = number of segment ends
     carrying no dovetail; the queries do not change the text;
   * remove_small_components(minlen) (only when every segment length is known): exactly the components whose
     summed segment length is < minlen disappear, every line that does not depend on a removed segment is
     textually unchanged, nothing new, no line mentions a removed segment.
+In 30% of the cases (both versions) the lines of the document ARRIVE IN ANOTHER ORDER: all lines shuffled, or a
+random subset of the S lines behind everything else - so that dovetails, containments and paths arrive before the
+S lines of the segments they join (either side, every orientation mix) and gfapy has to replace its placeholder
+segments; the answers must not depend on the arrival order.
 In 70% of the cases the graph goes through a history of 1-5 changes made through ANY PUBLIC ROUTE, and the answers
 must be those of the graph as it is at the time of each query, whatever was asked before:
   * removal of a segment or of an edge by Gfa.rm(name / line) or by line.disconnect();
   * addition of a segment, dovetail, containment or internal alignment by Gfa.add_line(text) or by
-    gfapy.Line(text).connect(gfa);
+    gfapy.Line(text).connect(gfa); also a dovetail to a segment that is defined only by the NEXT step (the S line
+    arrives after the edge, on the from or the to side, same or opposite orientations);
   * renaming of a segment;
   * graph operations which edit the graph themselves: multiply(segment, 2..3), remove_self_links(),
     remove_dead_ends(minlen), merge_linear_paths();
@@ -40,10 +47,13 @@ from harness.props import _graphgen as G
 ID = "C16"
 RULE = ("random assembly-like graphs (_graphgen.gen_graph, GFA1/GFA2, isolated segments, trees, cycles, self-links, "
         "hairpins, parallel edges, containment-only and internal-only relations; <= 12 segments quick, <= 30 thorough), "
+        "30% with the lines in another arrival order (S lines after the edges/paths that mention them), "
         "70% followed by 1-5 mutation steps (rm segment / rm edge by Gfa.rm or line.disconnect, add "
-        "segment/dovetail/containment/internal by add_line or Line.connect, rename, multiply, remove_self_links, "
+        "segment/dovetail/containment/internal by add_line or Line.connect, a dovetail followed by the S line of its "
+        "new segment, rename, multiply, remove_self_links, "
         "remove_dead_ends, merge_linear_paths) interleaved with query steps whose answers "
-        "are compared with the text of that moment, then one remove_small_components threshold. Non-trivial: at least "
+        "are compared with the text of that moment (names and identity of the members), then one "
+        "remove_small_components threshold. Non-trivial: at least "
         "2 segments and one edge record.")
 CASE_TIMEOUT = 60
 
@@ -67,9 +77,24 @@ def dovetail_line(v, a, ea, la, b, eb, lb, k):
                                                      _pos(ivb[1], lb), "%dM" % k if k else "*")
 
 
+def late_segments(rng, lines):
+    """the same document with some S lines arriving AFTER lines that mention them (legal in both versions: gfapy
+    keeps a placeholder segment until the S line arrives): either every line at a random place, or a random
+    subset of the S lines moved behind everything else"""
+    lines = list(lines)
+    if rng.random() < 0.5:
+        rng.shuffle(lines)
+        return lines
+    late = [l for l in lines if l.startswith("S\t") and rng.random() < 0.5]
+    rng.shuffle(late)
+    return [l for l in lines if l not in late] + late
+
+
 def gen_case(rng, tier, i):
     c = G.gen_graph(rng, tier, max_segs=12 if tier == "quick" else 30)
     c["vlevel"] = rng.choice([0, 1, 1, 1, 2, 3])
+    if rng.random() < 0.3:
+        c["lines"] = late_segments(rng, c["lines"])
     d = G.parse(c["lines"], c["version"])
     v = c["version"]
     alive = {n: (s["len"] if s["len"] is not None else 5) for n, s in d.segs.items()}
@@ -98,6 +123,18 @@ def gen_case(rng, tier, i):
                 ln = rng.randint(4, 12)
                 alive[n] = ln
                 hist.append(["add", "S\t%s\t*\tLN:i:%d" % (n, ln) if v == "gfa1" else "S\t%s\t%d\t*" % (n, ln), on(), []])
+            elif r < 0.51 and alive and fresh:
+                # a dovetail to a segment which is defined only afterwards (placeholder replaced by its S line)
+                a = rng.choice(sorted(alive))
+                n = fresh.pop(0)
+                la, ln = alive[a], rng.randint(4, 12)
+                k = rng.choice([0, rng.randint(1, min(la, ln) - 1)])
+                x, y = (a, rng.choice("LR"), la), (n, rng.choice("LR"), ln)
+                if rng.random() < 0.6:
+                    x, y = y, x
+                hist.append(["add", dovetail_line(v, x[0], x[1], x[2], y[0], y[1], y[2], k), on(), [a]])
+                hist.append(["add", "S\t%s\t*\tLN:i:%d" % (n, ln) if v == "gfa1" else "S\t%s\t%d\t*" % (n, ln), on(), []])
+                alive[n] = ln
             elif r < 0.70 and alive:
                 a, b = rng.choice(sorted(alive)), rng.choice(sorted(alive))
                 la, lb = alive[a], alive[b]
@@ -182,6 +219,19 @@ def names_of(segs):
     return [str(s.name) for s in segs]
 
 
+def foreign_members(g, segs):
+    """members of an answer that are not THE segment of that name in the Gfa (public API: Gfa.segment(name))"""
+    out = []
+    for m in segs:
+        try:
+            ok = g.segment(str(m.name)) is m
+        except Exception:  # noqa
+            ok = False
+        if not ok:
+            out.append(str(m.name))
+    return out
+
+
 def _apply(gfapy, g, case, h):
     """one history step through the public route it names -> lib.outcome(...) or None if the step does not apply"""
     kind = h[0]
@@ -235,16 +285,21 @@ def _queries(g, case, full, pick=0):
         return F, None, None, text
     # ------------------------------------------------------------------ components
     want = G.components(d)
-    r = lib.outcome(lambda: [names_of(c) for c in g.connected_components()])
+    r = lib.outcome(lambda: [list(c) for c in g.connected_components()])
     if r[0] != "ok":
         F.append("components-raises: %s %s" % (r[0], r[1]))
     else:
+        alien = [n for c in r[1] for n in foreign_members(g, c)]
+        r = ("ok", [names_of(c) for c in r[1]])
         flat = [n for c in r[1] for n in c]
         if len(flat) != len(set(flat)):
             F.append("components-overlap: a segment is listed twice: %r" % (r[1],))
         got = set(frozenset(c) for c in r[1])
         if got != want:
             F.append("components-wrong: expected %r got %r" % (sorted(map(sorted, want)), sorted(map(sorted, got))))
+        if alien:
+            F.append("component-member-not-a-segment-of-the-gfa: connected_components() lists object(s) named %r which are "
+                     "not the segments of that name in the Gfa" % (alien,))
     cls = {}
     for c in want:
         for n in c:
@@ -261,11 +316,18 @@ def _queries(g, case, full, pick=0):
         if not both:
             routes = (routes[(idx + salt) % 2],)
         for arg, how in routes:
-            r = lib.outcome(lambda: names_of(g.segment_connected_component(arg)))
+            r = lib.outcome(lambda: list(g.segment_connected_component(arg)))
+            alien = []
+            if r[0] == "ok":
+                alien = foreign_members(g, r[1])
+                r = ("ok", names_of(r[1]))
             if r[0] != "ok":
                 F.append("segment-component-raises: %s by %s: %s %s" % (n, how, r[0], r[1]))
             elif set(r[1]) != set(cls[n]) or len(r[1]) != len(set(r[1])):
                 F.append("segment-component-wrong: %s by %s: expected %r got %r" % (n, how, sorted(cls[n]), sorted(r[1])))
+            if alien:
+                F.append("component-member-not-a-segment-of-the-gfa: segment_connected_component(%s by %s) lists "
+                         "object(s) named %r which are not the segments of that name in the Gfa" % (n, how, alien))
     # ------------------------------------------------------------------ counters
     deg = G.degrees(d)
     for attr, val in (("n_dovetails", len(d.dovetails)), ("n_containments", len(d.containments)),
